@@ -587,6 +587,15 @@ func (c *Client) blocks(ctx context.Context, url string, start, limit uint64) ([
 			return nil, fmt.Errorf("rpc=%s %w", tag, resps[i].Error)
 		}
 	}
+	if len(resps) < len(blocks) {
+		const tag = "eth_getBlockByNumber: requested %d blocks got %d responses"
+		return nil, fmt.Errorf(tag, limit, len(resps))
+	}
+	for i := range blocks {
+		if resps[i].Block == nil || len(blocks[i].Header.Hash) == 0 {
+			return nil, fmt.Errorf("eth_getBlockByNumber: missing block %d", start+uint64(i))
+		}
+	}
 	slog.DebugContext(ctx, "http-get-blocks", "elapsed", time.Since(t0))
 	return blocks, validate("blocks", start, limit, blocks)
 }
@@ -653,6 +662,15 @@ func (c *Client) headers(ctx context.Context, url string, start, limit uint64) (
 		if resps[i].Error.Exists() {
 			const tag = "eth_getBlockByNumber/headers"
 			return nil, fmt.Errorf("rpc=%s %w", tag, resps[i].Error)
+		}
+	}
+	if len(resps) < len(blocks) {
+		const tag = "eth_getBlockByNumber/headers: requested %d blocks got %d responses"
+		return nil, fmt.Errorf(tag, limit, len(resps))
+	}
+	for i := range blocks {
+		if resps[i].Header == nil || len(blocks[i].Header.Hash) == 0 {
+			return nil, fmt.Errorf("eth_getBlockByNumber/headers: missing block %d", start+uint64(i))
 		}
 	}
 	slog.DebugContext(ctx, "http-get-headers", "elapsed", time.Since(t0))
